@@ -42,7 +42,8 @@ def _shift_refs(ops, pos):
 def simplify_generic(sc):
     """one-leaf simplifications of pool specs (drop a keyword, halve / zero a number, UTC for a zone)."""
     for i, spec in enumerate(sc.get("pool", [])):
-        if not isinstance(spec, dict):
+        if not isinstance(spec, dict) or "pool_meta" in sc:
+            # the property's model reads pool_meta, which mirrors the pool specs
             continue
         kw = spec.get("kw")
         if isinstance(kw, dict):
